@@ -63,6 +63,9 @@ impl DebugSession {
         ensures final(self).answered@ == old(self).answered@, final(self).answered_others@ == old(self).answered_others@, final(self).io_failed@ == old(self).io_failed@, final(self).succ@ == old(self).succ@, final(self).started@ == old(self).started@, final(self).attach@ == old(self).attach@,
             final(self).continued@ == old(self).continued@ + (if ev is Continued { 1nat } else { 0nat }),
     { unimplemented!() }
+    /// `self.debugger.is_none()`
+    #[verifier::external_body]
+    fn outline_no_debugger(&self) -> (r: bool) { unimplemented!() }
     /// `self.session_mode == Some(SessionMode::Attach)`
     #[verifier::external_body]
     fn outline_is_attach(&self) -> (r: bool) ensures r == self.attach@, { unimplemented!() }
@@ -147,6 +150,8 @@ impl DebugSession {
 //@   requires R_cd_fresh: !old(self).started@
 //@   outline O_dbg: `self .debugger .as_mut() .ok_or_else(|| anyhow!($m))?` => `self.outline_debugger()?`
 //@   outline O_att: `self.session_mode == Some(SessionMode::Attach)` => `self.outline_is_attach()`
+//@   outline O_none: `self.debugger.is_none()` => `self.outline_no_debugger()`
+//@   outline O_any: `Err(anyhow!($m))` => `Err(AnyErr)`
 //@   outline O_start: `dbg.start_debugee_with_reason().context("start debugee")?` => `self.outline_start()?`
 //@ end
 }
